@@ -228,6 +228,13 @@ func (c *Ctx) Count(key string) {
 	}
 }
 
+// Distinct registers a distinct non-trivial case without counting an evaluation.
+func (c *Ctx) Distinct(key string) {
+	if len(c.distinct) < 2_000_000 {
+		c.distinct[key] = struct{}{}
+	}
+}
+
 // States records explicit-state search statistics (E2 BFS).
 func (c *Ctx) States(states, transitions int64) {
 	c.states += states
@@ -335,6 +342,9 @@ func (c *Ctx) FoldExec(r *vs.ExecResult) {
 	if r.EndState != "" {
 		h := sha256.Sum256([]byte(r.EndState))
 		c.distinct[hex.EncodeToString(h[:8])] = struct{}{}
+	}
+	if r.Scenario != "" && r.HarnessE == "" {
+		c.Distinct("case:" + r.Scenario) // every enumerated case is a distinct input of the lattice
 	}
 	if r.HarnessE != "" {
 		c.harnessErr = append(c.harnessErr, r.Scenario+": "+r.HarnessE)
